@@ -2,23 +2,80 @@
 ID = 'C18'
 MODS = ['contracts.c_externs', 'contracts.c_include']
 FUNCS = ['yalafi.shell.shell.<include_loop>']
+# first half of the property: the extraction list (token-model contracts)
+MORE = [(['yalafi.parser.Parser.init_extractions',
+          'yalafi.defs.Expandable.__init__.<locals>.check'],
+         ['contracts.c_externs', 'contracts.c_utils', 'contracts.c_scanner',
+          'contracts.c_parser', 'contracts.c_tex2txt',
+          'contracts.c_handlers'])]
+
+
+def SELECT(name):
+    # utils.fatal in the guard of macro definitions is a clean exit by design
+    return 'Expandable.__init__.<locals>.check:call:fatal' not in name
+
+
+def lemmas():
+    """evaluation lemmas on the real scanner / parser of the tree under
+    check: the text '#k' scans to exactly one reference to argument k; and
+    a cross-check of Parser.init_extractions on the real macro table: a
+    listed macro extracts its first mandatory argument, every other macro
+    extracts nothing and has an empty body"""
+    import importlib
+    from contracts import tokmodel as tm
+    p = tm.real_parms()
+    defs = importlib.import_module('yalafi.defs')
+    parser = importlib.import_module('yalafi.parser')
+    ok, shown = True, ''
+    for k in range(1, 10):
+        toks = p.scanner.scan('#%d' % k)
+        if not (len(toks) == 1 and type(toks[0]) is defs.ArgumentToken and
+                toks[0].arg == k):
+            ok, shown = False, "scan('#%d') -> %r" % (k, toks)
+            break
+    yield ('extract:scan-of-#k-is-reference-to-argument-k', ok, shown)
+    yield ('extract:scan-of-empty-text-is-empty', p.scanner.scan('') == [],
+           '')
+    P = parser.Parser(p)
+    names = sorted(P.the_macros)
+    listed = [n for i, n in enumerate(names) if i % 3 == 0] + ['\\zzznew']
+    codes = {n: P.the_macros[n].args for n in names}
+    P.init_extractions(listed)
+    bad = []
+    for n, m in P.the_macros.items():
+        a = codes.get(n, 'A')
+        want = []
+        if n in listed and 'A' in a:
+            want = [a.index('A') + 1]
+        got = [t.arg for t in m.extract]
+        if got != want or not all(type(t) is defs.ArgumentToken
+                                  for t in m.extract) or m.repl != []:
+            bad.append((n, a, got))
+    yield ('extract:real-table:listed-macros-extract-first-mandatory-'
+           'argument-others-nothing', not bad, 'macro, code, extracted: %r'
+           % (bad[:3],))
 TRUSTED = [
     'mechanical extraction (pyvc/front.py lift_include_loop): the module-level statements of yalafi/shell/shell.py from '
     '`todo = cmdline.file` to `cmdline.file = done` become the body of a function with parameters cmdline, opts; nothing is '
     'rewritten',
     'file names are abstracted to opaque identities (only ==, .endswith(\'.tex\') and + \'.tex\' are applied to them); the file '
     'system is a ghost map name -> names extracted from that file; tex2txt.tex2txt(.., extraction options) returns exactly '
-    'those names (the extraction list semantics itself, Parser.init_extractions, is NOT verified)',
+    'those names (of the extraction semantics only Parser.init_extractions is verified, see below)',
     'list membership is an uninterpreted predicate with the lemmas of pop(0), append, + and the empty list (contracts/c_include.py)',
 ]
 ASSUMPTIONS = [
     'termination needs a finite set of reachable file names (not proved)',
-    'first half of the property (an extraction list yields exactly the first mandatory arguments of the listed macros) is not '
-    'covered: init_extractions is not under contract',
+    'first half of the property: proved is that init_extractions gives every listed macro the extraction text #k with k-1 the '
+    'index of the FIRST mandatory argument (none: empty), every other macro the empty extraction and an empty body, and '
+    'registers unknown listed names with one mandatory argument; that the expander then emits exactly these arguments in '
+    'order of appearance, and nothing from comments / skipped regions / verbatim, rests on the C03 lemmas and is not decided here',
     'when the solver answers unknown for an obligation, a bounded native search over inclusion graphs with at most 6 names runs '
     'the lifted statements themselves; it can only refute',
 ]
-LEVEL_TEXT = ('Deductive proof, over the lifted real statements, of the work-list invariants of --include: the list of checked '
+LEVEL_TEXT = ('Extraction list: Parser.init_extractions is proved (loop contracts over the abstract macro table) to hand the '
+    'scanner, for a listed macro, exactly the text #k where k-1 is the least index of an A in the argument code, else the '
+    'empty text; the guard Expandable.check establishes argument references in range or exits; evaluation lemmas on the real '
+    'scanner and macro table close the gap to tokens. Inclusion tracking: deductive proof, over the lifted real statements, of the work-list invariants of --include: the list of checked '
     'files is duplicate-free (each file once), contains no file matching --skip, and at exit is closed under "includes" (every '
     'name extracted from a checked file, with .tex added where missing, is skipped or checked), for all inclusion graphs, '
     'including cycles and self-inclusion. Discovery order and termination are not proved.')
